@@ -297,10 +297,11 @@ impl VersionNum {
     pub fn next(&self) -> Result<VersionNum> {
         let max = match self.width {
             0 => u32::MAX,
-            _ => u32::pow(10, self.width - 1) - 1,
+            // A width that 10^(width - 1) does not fit a u32 for imposes no limit of its own
+            width => 10u32.checked_pow(width - 1).map_or(u32::MAX, |pow| pow - 1),
         };
 
-        if self.number + 1 > max as u32 {
+        if self.number >= max {
             return Err(RocflError::IllegalState(format!(
                 "Version cannot be greater than {}",
                 max
